@@ -32,6 +32,8 @@ class Site:
         return f"{self.cls}.{self.method}"
 
 
+UNRESOLVED: List[str] = []     # apply_ufunc / map_blocks calls whose kernel argument is not a direct reference (filled by load_sites)
+
 MAP_BLOCKS_OPTS = {"dtype", "drop_axis", "new_axis", "chunks", "name", "meta", "token", "enforce_ndim", "align_arrays"}
 
 
@@ -59,7 +61,10 @@ def load_sites(repo: Repo, kernels: Dict[str, Kernel]) -> List[Site]:
                 if fname in ("xarray.apply_ufunc", "apply_ufunc", "xr.apply_ufunc"):
                     k = kernel_ref(c.args[0], kernels) if c.args else None
                     if k is None:
-                        raise AnalysisError(f"unsupported construct: apply_ufunc with unresolved kernel at {AFILE}:{c.lineno}")
+                        # the kernel is chosen through a variable: the site cannot be bound here; the properties that need a site of this
+                        # method miss it (their own floors / anchors report it), the others are not concerned
+                        UNRESOLVED.append(f"{cls.name}.{fn.name}:{c.lineno}")
+                        continue
                     opts = {kw.arg: kw.value for kw in c.keywords if kw.arg}
                     kwargs = {}
                     if isinstance(opts.get("kwargs"), ast.Dict):
@@ -69,7 +74,8 @@ def load_sites(repo: Repo, kernels: Dict[str, Kernel]) -> List[Site]:
                 elif fname in ("da.map_blocks", "dask.array.map_blocks"):
                     k = kernel_ref(c.args[0], kernels) if c.args else None
                     if k is None:
-                        raise AnalysisError(f"unsupported construct: map_blocks with unresolved kernel at {AFILE}:{c.lineno}")
+                        UNRESOLVED.append(f"{cls.name}.{fn.name}:{c.lineno}")
+                        continue
                     opts = {kw.arg: kw.value for kw in c.keywords if kw.arg in MAP_BLOCKS_OPTS}
                     kwargs = {kw.arg: kw.value for kw in c.keywords if kw.arg and kw.arg not in MAP_BLOCKS_OPTS}
                     sites.append(Site(cls.name, fn.name, k, "map_blocks", c, list(c.args[1:]), kwargs, opts, fn))
